@@ -240,6 +240,37 @@ def _collect(exe, p, idxs, lines, res, timeout, ulimit_stack):
             _collect(exe, p2, rest, lines, res, timeout, ulimit_stack)
 
 
+def _parse_obs(s):
+    """nested-list parse of an observation line: '[a [b c] d]' -> ['a', ['b','c'], 'd']"""
+    toks = re.findall(r"\[|\]|[^\s\[\]]+", s or "")
+    def go(i):
+        out = []
+        while i < len(toks):
+            t = toks[i]
+            if t == "[":
+                sub, i = go(i + 1)
+                out.append(sub)
+            elif t == "]":
+                return out, i + 1
+            else:
+                out.append(t)
+                i += 1
+        return out, i
+    return go(0)[0]
+
+
+def _match_skip(impl, model):
+    if model == "SKIP":
+        return True
+    if isinstance(impl, list) != isinstance(model, list):
+        return False
+    if not isinstance(impl, list):
+        return impl == model
+    if len(impl) != len(model):
+        return False
+    return all(_match_skip(a, b) for a, b in zip(impl, model))
+
+
 # ---------------------------------------------------------------- known findings
 def known_findings():
     path = os.path.join(ROOT, "known_findings.txt")
@@ -289,13 +320,15 @@ class Check:
     def canon(self, s):
         return s
     def same(self, impl_out, model_out):
-        # the model does not decompress/decrypt every container: it then ends with SKIP and only the part before is compared
+        # the model does not decompress/decrypt every container: a SKIP token stands for "whatever the
+        # implementation reports at this place" (one token or one bracketed group); the oracle still judges it
         if model_out == "SKIP-AES":
             return True
-        if model_out is not None and impl_out is not None and model_out.endswith(" SKIP]"):
-            pre = model_out[:-len("SKIP]")]
-            return impl_out.startswith(pre)
-        return self.canon(impl_out) == self.canon(model_out)
+        if model_out is None or impl_out is None:
+            return model_out == impl_out
+        if "SKIP" not in model_out:
+            return self.canon(impl_out) == self.canon(model_out)
+        return _match_skip(_parse_obs(self.canon(impl_out)), _parse_obs(self.canon(model_out)))
 
     def write_replay(self, n, payload):
         os.makedirs(REPLAY, exist_ok=True)
